@@ -134,8 +134,9 @@ func (c *conn) runOne(ctx context.Context, st *parsedStmt, args []interface{}, r
 	if !c.admin {
 		s.mu.Lock()
 		if c.closed {
+			err := c.deadErrLocked()
 			s.mu.Unlock()
-			return nil, driver.ErrBadConn
+			return nil, err
 		}
 		e.InTx = c.tx != nil
 		gate := s.gate
@@ -159,8 +160,9 @@ func (c *conn) runOne(ctx context.Context, st *parsedStmt, args []interface{}, r
 
 	s.mu.Lock()
 	if c.closed {
+		err := c.deadErrLocked()
 		s.mu.Unlock()
-		return nil, driver.ErrBadConn
+		return nil, err
 	}
 	e.InTx = c.tx != nil
 	var fault *faultState
